@@ -59,6 +59,8 @@ type c15World struct {
 	enabled      bool
 	client       string // the L1 client id configured in the bridge info ("" = not yet configured)
 	log          []string
+	discardNext  bool // the next refresh runs on a branch that is thrown away
+	discarded    int
 }
 
 func (w *c15World) logf(f string, a ...interface{}) { w.log = append(w.log, fmt.Sprintf(f, a...)) }
@@ -161,7 +163,7 @@ func (w *c15World) refresh(rt *rapid.T, forceValid ...bool) error {
 	set := &cmtproto.ValidatorSet{}
 	offered := map[string]c15Val{}
 	for i, v := range w.vals {
-		if i > 0 && rapid.IntRange(0, 5).Draw(rt, "drop") == 0 {
+		if i > 0 && (rapid.IntRange(0, 5).Draw(rt, "drop") == 0 || (w.discardNext && rapid.Bool().Draw(rt, "dropMore"))) {
 			continue
 		}
 		pk, err := cryptocodec.ToCmtProtoPublicKey(v.priv.PubKey())
@@ -170,6 +172,15 @@ func (w *c15World) refresh(rt *rapid.T, forceValid ...bool) error {
 		}
 		set.Validators = append(set.Validators, &cmtproto.Validator{Address: v.addr, PubKey: pk, VotingPower: v.power})
 		offered[string(v.addr)] = v
+	}
+	if w.discardNext {
+		// the refresh runs on a branch that is never written (the client-update transaction fails later,
+		// or is only simulated): the recorded set, and everything derived from it, stays what it was
+		w.discardNext = false
+		cctx, _ := w.l2.Ctx.CacheContext()
+		err := w.l2.K.UpdateHostValidatorSet(cctx, clientID, height, set)
+		w.logf("refresh on a discarded branch (client=%q height=%d n=%d) -> %v", clientID, height, len(set.Validators), err)
+		return w.checkStored()
 	}
 	err := w.l2.K.UpdateHostValidatorSet(w.l2.Ctx, clientID, height, set)
 	if err != nil {
@@ -367,7 +378,14 @@ func TestC15Rapid(t *testing.T) {
 			fail := func(f string, a ...interface{}) {
 				rt.Fatalf("C15 violated at step %d: %s\nhistory:\n%s", i, fmt.Sprintf(f, a...), strings.Join(w.log, "\n"))
 			}
-			switch drawWeighted(rt, "op", []weighted{{"update", 8}, {"refresh", 2}, {"toggle", 1}}) {
+			switch drawWeighted(rt, "op", []weighted{{"update", 8}, {"refresh", 2}, {"toggle", 1}, {"discarded-refresh", 1}}) {
+			case "discarded-refresh":
+				w.discardNext = true
+				w.discarded++
+				if err := w.refresh(rt); err != nil {
+					fail("%v", err)
+				}
+				return
 			case "refresh":
 				if err := w.refresh(rt); err != nil {
 					fail("%v", err)
@@ -533,8 +551,14 @@ func TestC15Rapid(t *testing.T) {
 			}
 			if r.OK() {
 				c.Class("update-applied")
+				if w.discarded > 0 {
+					c.Class("update-applied-after-a-discarded-refresh")
+				}
 			} else {
 				c.Class("update-rejected")
+				if w.discarded > 0 {
+					c.Class("update-rejected-after-a-discarded-refresh")
+				}
 				c.Class("rejected/" + truncStr(r.Err.Error(), 38))
 			}
 			if near {
